@@ -13,7 +13,7 @@ import (
 func init() {
 	Drivers["C12"] = driveC12
 	Levels["C12"] = "exploration"
-	Rules["C12"] = "one run = one array (length 0-8, a quarter of them 9-24, elements of every JSON type in mixed Go representations: float64/int/int8/uint/float32/json.Number spellings, inside []any and map[string]any containers built in different insertion orders) with or without a planted duplicate at a chosen pair of positions that is equal but not identical, checked against {uniqueItems:true}; or one enum / const schema against an instance; or (one run in six) 2-4 arrays that share elements, checked inside ONE Validate call below anyOf / not / if-then / contains (which swallow a failed uniqueItems), against the definition applied array by array; each validated under 8 (quick) / 24 (thorough) configurations of hash seed x collision mask {64,2,1,0 bits} x map order. Oracles: the verdict equals the pairwise definition computed with the public Equal, identically in every configuration; and, through the generated hashValue helper, Equal(x,y) implies equal digests under the same seed with independent map orders for x and y. Non-trivial = a planted duplicate whose members differ in Go representation in an array of length >=3, or a masked configuration in which >=2 unequal items shared a bucket. Distinct = hash(values with their Go types, schema kind) x (seed, mask, order) vector."
+	Rules["C12"] = "one run = one array (length 0-8, a quarter of them 9-24, elements of every JSON type in mixed Go representations: float64/int/int8/uint/float32/json.Number spellings, inside []any and map[string]any containers built in different insertion orders) with or without a planted duplicate at a chosen pair of positions that is equal but not identical, checked against {uniqueItems:true}; or one enum / const schema against an instance; or (one run in six) 2-4 arrays that share elements, checked inside ONE Validate call below anyOf / not / if-then / contains (which swallow a failed uniqueItems), against the definition applied array by array; or (one run in 24) an array of 65-450 items with one Equal pair at a chosen pair of positions, validated 10 times (10 seeds); each validated under 8 (quick) / 24 (thorough) configurations of hash seed x collision mask {64,2,1,0 bits} x map order. Oracles: the verdict equals the pairwise definition computed with the public Equal, identically in every configuration; and, through the generated hashValue helper, Equal(x,y) implies equal digests under the same seed with independent map orders for x and y. Non-trivial = a planted duplicate whose members differ in Go representation in an array of length >=3, or a masked configuration in which >=2 unequal items shared a bucket. Distinct = hash(values with their Go types, schema kind) x (seed, mask, order) vector."
 	Assumptions["C12"] = append([]string{
 		"Equal is used as the definition of JSON equality, as the property's text does (that Equal itself is right is C11, not claimed); values behind pointers and typed containers ([]int, map[string]int) are not generated: Equal(&x, x) and Equal([]int{1}, []any{1.0}) are false (Equal does not look through an interface on one side only), which is a C11/C08 matter outside this check",
 		"with -tags purego hash/maphash is a pure function of the seed value, so a seed is a replayable decision; masking Sum64 to 2, 1 or 0 bits forces the collision path, which has probability 2^-64 per pair otherwise",
@@ -197,9 +197,81 @@ func driveC12Multi(c *Ctx) {
 	}
 }
 
+// driveC12Long: arrays of 65-450 mostly distinct items with one planted duplicate at a chosen
+// pair of positions (or none): table-based implementations change behaviour with size (resizing,
+// saturation of filters, probing), and which pairs they miss depends on the per-call seed.
+func driveC12Long(c *Ctx) {
+	n := 65 + c.W(386)
+	items := make([]any, n)
+	for i := range items {
+		switch i % 4 {
+		case 0:
+			items[i] = float64(i)
+		case 1:
+			items[i] = fmt.Sprintf("s%d", i)
+		case 2:
+			items[i] = []any{float64(i), "x"}
+		default:
+			items[i] = map[string]any{"k": float64(i)}
+		}
+	}
+	want := true
+	dup := [2]int{-1, -1}
+	if c.W(4) != 0 {
+		i := c.W(n)
+		j := c.W(n - 1)
+		if j >= i {
+			j++
+		}
+		items[j] = rerepr(c, clone(items[i]), 1)
+		dup = [2]int{i, j}
+		want = false
+	}
+	c.In("long array n=%d duplicate at %v", n, dup)
+	c.Distinct("long|%d|%v", n, dup)
+	res, err := (&jsonschema.Schema{UniqueItems: true}).Resolve(nil)
+	if err != nil {
+		c.Fail("C12/definition", "resolve", "Resolve failed: %v", err)
+		return
+	}
+	for ci := 0; ci < 10; ci++ {
+		mask := 64
+		if ci%5 == 4 {
+			mask = 4 // 16 buckets: long collision lists without quadratic blow-up
+		}
+		simrt.SetHashMask(mask)
+		var verr error
+		r := OpBudget(20*DefaultBudget, func() { verr = res.Validate(items) })
+		c.CheckOp("Validate", r)
+		if r.Panicked {
+			c.Fail("C12/definition", "validate-"+r.String(), "Validate of a %d-item array did not return normally: %s", n, r.Value)
+			break
+		}
+		if (verr == nil) != want {
+			oracle := "C12/definition"
+			if ci > 0 {
+				oracle = "C12/seed-independence"
+				c.Fail("C14/hash-seed-independence", "uniqueItems-long-array", "call %d (another hash seed) on the same %d-item array: valid=%v, the first call said %v", ci, n, verr == nil, want)
+			}
+			c.Fail(oracle, "uniqueItems-long-array", "call %d (mask %d bits): uniqueItems over %d items with an Equal pair at %v: valid=%v, want %v; error: %v", ci, mask, n, dup, verr == nil, want, verr)
+			break
+		}
+	}
+	simrt.SetHashMask(64)
+	c.Nontrivial = dup[0] >= 0
+	c.Probe("kind:uniqueItems-long-array")
+	if c.logOn {
+		c.Sample = map[string]any{"kind": "long array", "length": n, "duplicate_positions": dup, "definition_valid": want}
+	}
+}
+
 func driveC12(c *Ctx) {
-	if c.W(6) == 0 {
+	switch c.W(24) {
+	case 0, 1, 2, 3:
 		driveC12Multi(c)
+		return
+	case 4:
+		driveC12Long(c)
 		return
 	}
 	mode := c.W(4) // 0,1 uniqueItems; 2 enum; 3 const
